@@ -22,6 +22,13 @@
 (*   } }                                                                   *)
 (*   completeSignature(...)                                     Complete   *)
 (*   submitter.submitRelayEntry(...)                              Submit   *)
+(*                                                                         *)
+(* Repeated messages of one sender: every message is validated on its own  *)
+(* and, if valid, written to receivedValidShares[sender] again.  BLS       *)
+(* shares are deterministic, so a valid repeat carries the same share: the *)
+(* first admitted share of a sender is never replaced by another value,    *)
+(* and an invalid repeat changes nothing (SharesStable).  Messages that    *)
+(* arrive once the loop was left are never looked at (LateMsg).            *)
 (***************************************************************************)
 EXTENDS Integers, Sequences, FiniteSets, TLC
 
@@ -107,6 +114,12 @@ Complete ==
     /\ phase' = "completed"
     /\ UNCHANGED <<received, delivered>>
 
+\* a message delivered after the loop was left: stays in the channel buffer
+LateMsg(m) ==
+    /\ phase = "completed" /\ delivered < MaxMsgs
+    /\ delivered' = delivered + 1
+    /\ UNCHANGED <<received, phase, sig>>
+
 Submit ==
     /\ phase = "completed"
     /\ phase' = "submitted"
@@ -115,8 +128,9 @@ Submit ==
 DoIgnore == \E m \in Msgs : Ignore(m)
 DoReject == \E m \in Msgs : Reject(m)
 DoAccept == \E m \in Msgs : Accept(m)
+DoLate   == \E m \in Msgs : LateMsg(m)
 
-Next == DoIgnore \/ DoReject \/ DoAccept \/ OtherSubmitted \/ Timeout \/ Complete \/ Submit
+Next == DoIgnore \/ DoReject \/ DoAccept \/ DoLate \/ OtherSubmitted \/ Timeout \/ Complete \/ Submit
 
 Spec == Init /\ [][Next]_vars
 
@@ -141,5 +155,14 @@ AtMostThreshold == Count <= (IF H > 1 THEN H ELSE 1)
 
 \* what is submitted is the group signature
 SubmitsGroupSignature == phase \in {"completed", "submitted"} => sig = "group"
+\* every share that takes part in the recovery verifies under its sender's key
+\* share at the moment of completion (nothing was swapped in after admission)
+UsedSharesVerify ==
+    phase \in {"completed", "submitted"} => \A s \in DOMAIN received : Verifies(s, received[s])
+
+\* action property: an admitted share is never removed or replaced by another value
+SharesStable ==
+    [][\A s \in DOMAIN received : s \in DOMAIN received' /\ received'[s] = received[s]]_vars
+
 NothingBeforeThreshold == phase \in {"loop", "left", "timedout"} => sig = "none"
 =============================================================================
